@@ -109,7 +109,8 @@ def _role(w, p):
 
 def run_history(eng, fam, P, prop):
     bodies = skeleton(eng, fam, P)
-    progs = [Program(eng, b) for b in bodies]
+    shared = {}
+    progs = [Program(eng, b, shared) for b in bodies]
     eng.path_info['program'] = ' || '.join(show(b) for b in bodies)
     cache_rel = P.get('cache', 'cache')
     w = World(eng, P.get('universe', U7), cache_rel=cache_rel, sandbox=getattr(eng, 'sandbox', None))
